@@ -27,7 +27,7 @@ var (
 	intGridThorough = []int64{-1, 0, 1, 2, 3, 6, 7, 9, 10, 11, 23, 24, 25, 52, 53, 54, 99, 100, 255, 256, 1000, 65535, 65536, 4294967295}
 	ptrGrid         = []int64{-1 /* nil */, 0, 1, 3, 6, 7}
 	valuesGrid      = [][]string{
-		nil, {"a"}, {"a", "b"}, {""}, {"it's"}, {"a,b", "c"}, {"a','b"}, {"'q'"}, {`"d"`}, {"x'"}, {"'y"}, {"A B", "c)"}, {`back\slash`, "ü"},
+		nil, {"a"}, {"a", "b"}, {""}, {"it's"}, {"a,b", "c"}, {"a','b"}, {"'q'"}, {`"d"`}, {"x'"}, {"'y"}, {"A B", "c)"}, {`back\slash`, "ü"}, {","}, {",", "b"}, {"a", ",", "b"}, {",x", "y,"},
 	}
 )
 
@@ -160,7 +160,7 @@ func rawTypes(o *dops) []string {
 		"double", "real", "int", "int(11)", "integer", "bigint(20) unsigned", "tinyint(1)", "blob", "text", "json", "uuid", "date", "datetime(6)", "timestamp(3)", "time"}
 	switch o.name {
 	case "sqlite":
-		rs = append(rs, "VARCHAR(10)", "varying character(5)", "unsigned big int", "native character(70)", "double precision", "numeric(10,5)", "my_type", "MyType(3)", "nvarchar(100)", "clob", "boolean", "jsonb")
+		rs = append(rs, "VARCHAR(10)", "varying character(5)", "unsigned big int", "native character(70)", "double precision", "numeric(10,5)", "my_type", "MyType(3)", "nvarchar(100)", "clob", "boolean", "jsonb", "Point3D", "GeoJSON", "MyType")
 	case "mysql":
 		rs = append(rs, "int(10) unsigned zerofill", "int unsigned", "decimal(10,2) unsigned", "float unsigned", "double(10,2)", "bit(8)", "bit", "binary(16)", "binary", "varbinary(255)",
 			"enum('a','b')", "set('x','y')", "year(4)", "year", "point", "geometry", "inet6", "longtext", "mediumblob", "bool", "boolean", "tinyint(4)", "varchar(0)", "bit(1)", "binary(1)")
@@ -175,13 +175,17 @@ func rawTypes(o *dops) []string {
 // gridTypes builds the whole type grid of one dialect.
 func gridTypes(o *dops, tier string) []gtype {
 	var g []gtype
-	seen := map[string]bool{}
+	seen := map[string]int{}
 	add := func(t schema.Type, origin string) {
 		k := showType(t)
-		if seen[k] {
+		if i, ok := seen[k]; ok {
+			// a type first met as a model-tie-only variant is a type of the dialect when a spec / raw text yields it
+			if (origin == "spec" || origin == "raw") && (g[i].origin == "specx" || g[i].origin == "cross") {
+				g[i].origin = origin
+			}
 			return
 		}
-		seen[k] = true
+		seen[k] = len(g)
 		g = append(g, gtype{t, origin})
 	}
 	// 1. every registered spec x parameter grid; the class is the one ParseType gives to the spec's T.
@@ -190,6 +194,10 @@ func gridTypes(o *dops, tier string) []gtype {
 		if st != "ok" || t0 == nil {
 			continue
 		}
+		if s.RType != nil { // specs selected by RType (mysql enum/set): build the RType value itself
+			t0 = reflect.New(s.RType).Interface().(schema.Type)
+			t0 = setT(t0, s.T)
+		}
 		if o.name == "postgres" && s.ToSpec != nil { // the interval family: the spec name is the interval field
 			f := strings.ToUpper(strings.ReplaceAll(s.T, "_", " "))
 			if f == "INTERVAL" {
@@ -197,10 +205,6 @@ func gridTypes(o *dops, tier string) []gtype {
 			}
 			six := 6
 			t0 = &postgres.IntervalType{T: "interval", F: f, Precision: &six}
-		}
-		if s.RType != nil { // specs selected by RType (mysql enum/set): build the RType value itself
-			t0 = reflect.New(s.RType).Interface().(schema.Type)
-			t0 = setT(t0, s.T)
 		}
 		// "spec": only the parameters the spec declares vary (these are types of the dialect);
 		// "specx": every field varies (model tie only).
@@ -221,6 +225,10 @@ func gridTypes(o *dops, tier string) []gtype {
 		}
 		for _, v := range variants(t0, tier, nil) {
 			add(v, "specx")
+		}
+		// the type written with the spec's own name (an alias such as mysql `boolean`, postgres `int4`)
+		if s.RType == nil && !(o.name == "postgres" && s.ToSpec != nil) {
+			add(setT(t0, s.T), "spec")
 		}
 	}
 	// 2. what inspection produces for raw column types.
